@@ -183,7 +183,15 @@ def _update_tree (force_dpid = None):
   # Now modify ports as needed
   try:
     change_count = 0
-    for sw, ports in tree.items():
+    # Besides the switches in the tree, look at every other connected switch:
+    # one without any bidirectional link (left) still has ports whose flood
+    # bit must follow the adjacency (former link ports are edge ports now,
+    # ports of one-way links must not flood).
+    switches = list(tree.keys())
+    switches.extend(d for d in core.openflow.connections.dpids
+                    if d not in tree)
+    for sw in switches:
+      ports = tree.get(sw, ())
       con = core.openflow.getConnection(sw)
       if con is None: continue # Must have disconnected
       if con.connect_time is None: continue # Not fully connected
